@@ -46,13 +46,14 @@ VARIABLES
   own,       \* prophet: set of peers this node met since start (predictability P_init, else 0)
   peerv,     \* prophet: [Peers -> [Peers \cup {"far"} -> 0..3]] advertised predictability levels (2 = P_init)
   nbr,       \* dtlsr: peers that are or were neighbours since start
-  table,     \* dtlsr: destinations with a route at the last recomputation
+  table,     \* dtlsr: routing table of the last recomputation: set of <<destination, next hop>>
+  via,       \* dtlsr: the peer whose link-state data says it is connected to node "far" ("none" if nobody)
   idk,       \* [group -> next sequence number] (volatile)
   used,      \* bundles already submitted
   late,      \* Advance happened: short-lived bundles are expired
   steps, hist
 
-vars == <<up, failing, st, meta, own, peerv, nbr, table, idk, used, late, steps, hist>>
+vars == <<up, failing, st, meta, own, peerv, nbr, table, via, idk, used, late, steps, hist>>
 
 NoRec == [known |-> FALSE, pending |-> FALSE, sent |-> {}, seq |-> 0]
 NoMeta == [has |-> FALSE, copies |-> 0, sent |-> {}]
@@ -63,7 +64,7 @@ Init ==
   /\ st = [b \in Cat |-> NoRec]
   /\ meta = [b \in Cat |-> NoMeta]
   /\ own = {} /\ peerv = [p \in Peers |-> [d \in Peers \cup {"far", "bcast"} |-> 0]]
-  /\ nbr = {} /\ table = {}
+  /\ nbr = {} /\ table = {} /\ via = "none"
   /\ idk = [g \in Groups |-> 0]
   /\ used = {} /\ late = FALSE /\ steps = 0 /\ hist = <<>>
 
@@ -105,7 +106,7 @@ Candidates(w, b) ==
     [] Algo = "prophet" -> {p \in w.up \ w.st[b].sent :
                               peerv[p][Attr[b].dst] > (IF Attr[b].dst \in w.own THEN 2 ELSE 0)}
     [] Algo = "dtlsr" -> IF Attr[b].dst = "bcast" THEN w.up \ w.st[b].sent     \* link-state broadcasts go once to every peer
-                         ELSE IF Attr[b].dst \in table /\ Attr[b].dst \in w.up THEN {Attr[b].dst} ELSE {}
+                         ELSE {h \in w.up : <<Attr[b].dst, h>> \in table}
 Min(a, c) == IF a < c THEN a ELSE c
 HowMany(w, b) ==
   CASE Algo = "spray" -> Min(w.meta[b].copies - 1, Cardinality(Candidates(w, b)))
@@ -197,7 +198,7 @@ Submit(b, tg) ==
      IN /\ tg \in Choices(w1, b)
         /\ idk' = [idk EXCEPT ![g] = sq + 1]
         /\ Commit(Dispatch(w1, b, tg), [act |-> "Submit", b |-> b, tg |-> tg, choices |-> [x \in {b} |-> Choices(w1, b)]])
-  /\ UNCHANGED <<up, failing, own, peerv, nbr, table, late>>
+  /\ UNCHANGED <<up, failing, own, peerv, nbr, table, via, late>>
 
 Receive(b, tg) ==
   /\ Go("Receive") /\ Attr[b].origin \in up
@@ -212,7 +213,7 @@ Receive(b, tg) ==
              ELSE LET w3 == Notify(w2, b)
                   IN /\ tg \in Choices(w3, b)
                      /\ Commit(Dispatch(w3, b, tg), [act |-> "Receive", b |-> b, tg |-> tg, choices |-> [x \in {b} |-> Choices(w3, b)]])
-  /\ UNCHANGED <<up, failing, own, peerv, nbr, table, idk, used, late>>
+  /\ UNCHANGED <<up, failing, own, peerv, nbr, table, via, idk, used, late>>
 
 PeerUp(p, pick) ==
   /\ Go("PeerUp") /\ p \notin up
@@ -222,40 +223,40 @@ PeerUp(p, pick) ==
      /\ pick \in Picks(w)
      /\ GoodPick(w, pick)
      /\ Commit(RetryAll(w, PendingSet(w), pick), [act |-> "PeerUp", p |-> p, pick |-> pick, choices |-> [x \in PendingSet(w) |-> Choices(w, x)]])
-  /\ UNCHANGED <<failing, peerv, table, idk, used, late>>
+  /\ UNCHANGED <<failing, peerv, table, via, idk, used, late>>
 
 PeerDown(p) ==
   /\ Go("PeerDown") /\ p \in up
   /\ up' = up \ {p}
   /\ Commit(World, [act |-> "PeerDown", p |-> p])
-  /\ UNCHANGED <<failing, own, peerv, nbr, table, idk, used, late>>
+  /\ UNCHANGED <<failing, own, peerv, nbr, table, via, idk, used, late>>
 
 SetFail(p, v) ==
   /\ Go("SetFail") /\ (p \in failing) # v
   /\ failing' = IF v THEN failing \cup {p} ELSE failing \ {p}
   /\ Commit(World, [act |-> "SetFail", p |-> p, v |-> v])
-  /\ UNCHANGED <<up, own, peerv, nbr, table, idk, used, late>>
+  /\ UNCHANGED <<up, own, peerv, nbr, table, via, idk, used, late>>
 
 RetryTick(pick) ==
   /\ Go("RetryTick")
   /\ pick \in Picks(World) /\ GoodPick(World, pick)
   /\ Commit(RetryAll(World, PendingSet(World), pick), [act |-> "RetryTick", pick |-> pick, choices |-> [x \in PendingSet(World) |-> Choices(World, x)]])
-  /\ UNCHANGED <<up, failing, own, peerv, nbr, table, idk, used, late>>
+  /\ UNCHANGED <<up, failing, own, peerv, nbr, table, via, idk, used, late>>
 
 CleanTick ==
   /\ Go("CleanTick")
   /\ Commit([World EXCEPT !.st = [b \in Cat |-> IF st[b].known /\ Expired(b) THEN NoRec ELSE st[b]]], [act |-> "CleanTick"])
-  /\ UNCHANGED <<up, failing, own, peerv, nbr, table, idk, used, late>>
+  /\ UNCHANGED <<up, failing, own, peerv, nbr, table, via, idk, used, late>>
 
 Advance ==
   /\ Go("Advance") /\ ~late
   /\ late' = TRUE
   /\ Commit(World, [act |-> "Advance"])
-  /\ UNCHANGED <<up, failing, own, peerv, nbr, table, idk, used>>
+  /\ UNCHANGED <<up, failing, own, peerv, nbr, table, via, idk, used>>
 
 Restart ==
   /\ Go("Restart")
-  /\ up' = {} /\ own' = {} /\ nbr' = {} /\ table' = {}
+  /\ up' = {} /\ own' = {} /\ nbr' = {} /\ table' = {} /\ via' = "none"
   /\ peerv' = [p \in Peers |-> [d \in Peers \cup {"far", "bcast"} |-> 0]]
   /\ idk' = [g \in Groups |-> 0]
   /\ Commit([World EXCEPT !.meta = [b \in Cat |-> NoMeta]], [act |-> "Restart"])
@@ -266,21 +267,28 @@ Vector(p, d, v) ==
   /\ Go("Vector") /\ Algo = "prophet" /\ p \in up /\ peerv[p][d] # v
   /\ peerv' = [peerv EXCEPT ![p][d] = v]
   /\ Commit(World, [act |-> "Vector", p |-> p, d |-> d, v |-> v])
-  /\ UNCHANGED <<up, failing, own, nbr, table, idk, used, late>>
+  /\ UNCHANGED <<up, failing, own, nbr, table, via, idk, used, late>>
 
 (* dtlsr: routing table recomputation: every node that is or was a neighbour has a route (itself as next hop) *)
 Recompute ==
   /\ Go("Recompute") /\ Algo = "dtlsr"
-  /\ table' = nbr
+  /\ table' = {<<n, n>> : n \in nbr} \cup (IF via \in nbr THEN {<<"far", via>>} ELSE {})
   /\ Commit(World, [act |-> "Recompute"])
-  /\ UNCHANGED <<up, failing, own, peerv, nbr, idk, used, late>>
+  /\ UNCHANGED <<up, failing, own, peerv, nbr, via, idk, used, late>>
+
+(* dtlsr: link-state data of the connected peer p arrives, saying that p is connected to node "far" *)
+Learn(p) ==
+  /\ Go("Learn") /\ Algo = "dtlsr" /\ p \in up /\ via = "none"     \* one advertiser only: with two the choice among equal-cost paths is the library's
+  /\ via' = p
+  /\ Commit(World, [act |-> "Learn", p |-> p])
+  /\ UNCHANGED <<up, failing, own, peerv, nbr, table, idk, used, late>>
 
 Next ==
   \/ \E b \in Cat, tg \in SUBSET Peers : Submit(b, tg) \/ Receive(b, tg)
   \/ \E p \in Peers : PeerDown(p) \/ (\E v \in BOOLEAN : SetFail(p, v))
   \/ \E p \in Peers : \E pick \in [PendingSet(World) -> SUBSET Peers] : PeerUp(p, pick)
   \/ \E pick \in [PendingSet(World) -> SUBSET Peers] : RetryTick(pick)
-  \/ CleanTick \/ Advance \/ Restart \/ Recompute
+  \/ CleanTick \/ Advance \/ Restart \/ Recompute \/ (\E p \in Peers : Learn(p))
   \/ \E p \in Peers, d \in Peers \cup {"far", "bcast"}, v \in 0..3 : Vector(p, d, v)
 
 Spec == Init /\ [][Next]_vars
@@ -302,6 +310,6 @@ Conservation == Algo = "spray" => \A b \in Cat : (meta[b].has /\ Attr[b].origin 
 DistinctIds == \A x, y \in Cat : (x # y /\ st[x].known /\ st[y].known /\ Attr[x].origin = "app" /\ Attr[y].origin = "app"
                                     /\ Attr[x].tsg = Attr[y].tsg /\ Attr[x].tsg # 0) => st[x].seq # st[y].seq
 
-SView == <<up, failing, st, meta, own, peerv, nbr, table, idk, used, late, steps>>
+SView == <<up, failing, st, meta, own, peerv, nbr, table, via, idk, used, late, steps>>
 Emit == (EmitMode = "final" /\ steps = MaxSteps) => PrintT(<<"TRACE", ToJson(hist)>>)
 =============================================================================
